@@ -26,7 +26,10 @@ theorem subLead_length_le (A : List Key) (ns : List Nat) (cax : List Key) (shp :
   omega
 
 /-- subspacing keeps bounds and interior ring aligned with the data, and the construct's shape is re-led -/
-theorem subCon_shape_wf {t : CType} (ht : modelled t = true) {c : Con} {shp : List Nat} (hs : c.shape t = some shp)
+theorem array_cases {t : CType} (h : t.isArray = true) : modelled t = true ∨ t = .top ∨ t = .con := by
+  cases t <;> simp [modelled, CType.isArray] at h ⊢
+
+theorem subCon_shape_wf {t : CType} (ht : t.isArray = true) {c : Con} {shp : List Nat} (hs : c.shape t = some shp)
     (hwf : c.WF t) (lead : List Nat) (hl : lead.length ≤ shp.length) :
     (subCon c lead).shape t = some (relead lead shp) ∧ (subCon c lead).WF t := by
   have hdim := hwf.2
@@ -35,8 +38,26 @@ theorem subCon_shape_wf {t : CType} (ht : modelled t = true) {c : Con} {shp : Li
   rw [hs] at hwf
   simp only at hwf
   obtain ⟨hb, hr⟩ := hwf
-  rw [modelled_shape ht] at hs
   have key : (subCon c lead).shape t = some (relead lead shp) := by
+    by_cases htop : t = .top ∨ t = .con
+    · -- domain topology / cell connectivity: the shape is the first dimension of the data
+      have hsh : ∀ c' : Con, c'.shape t = c'.data.map (fun d => d.take 1) := by
+        intro c'; unfold Con.shape; rcases htop with e | e <;> subst e <;> simp [CType.isArray]
+      rw [hsh] at hs ⊢
+      cases hd : c.data with
+      | none => simp [hd] at hs
+      | some d =>
+        simp only [hd, Option.map_some, Option.some.injEq] at hs
+        subst hs
+        simp only [subCon, hd, Option.map_some, Option.some.injEq]
+        have : lead.length ≤ 1 := by
+          have := hl; simp only [List.length_take] at this; omega
+        exact relead_take lead d 1 this
+    have ht : modelled t = true := by
+      rcases array_cases ht with h1 | h1
+      · exact h1
+      · exact absurd h1 htop
+    rw [modelled_shape ht] at hs
     rw [modelled_shape ht]
     cases hd : c.data with
     | some d =>
@@ -94,6 +115,7 @@ theorem subCon_shape_wf {t : CType} (ht : modelled t = true) {c : Con} {shp : Li
   · -- a one-dimensional dimension coordinate stays one-dimensional
     intro e
     have h0 := hdim e
+    rw [modelled_shape (t := t) (by subst e; rfl)] at hs
     cases hd : c.data with
     | none => simp [subCon, hd]
     | some d =>
@@ -352,7 +374,7 @@ theorem subOne_step {A : List Key} {ns : List Nat} {st st' : St} {p : CType × K
     (hr : subOne true A ns st p = some st') :
     (st' = st ∧ ∀ cax c, st.caxes.get p.2 = some cax → st.cons.get p = some c → spansB A cax = false) ∨
     (∃ cax c shp o, st.caxes.get p.2 = some cax ∧ st.cons.get p = some c ∧ spansB A cax = true ∧
-      modelled p.1 = true ∧ c.shape p.1 = some shp ∧
+      p.1.isArray = true ∧ c.shape p.1 = some shp ∧
       setConstruct true st false p.1 (subCon c (subLead A ns cax shp)) (some p.2) none = (st', .ok o)) := by
   unfold subOne at hr
   cases hx : st.caxes.get p.2 with
@@ -389,8 +411,8 @@ theorem subOne_step {A : List Key} {ns : List Nat} {st st' : St} {p : CType × K
             simp only [Option.some.injEq] at hr; subst hr
             exact Or.inr ⟨cax, c, shp, ko, rfl, rfl, by unfold spansB; simpa using hsp, by simpa using hmod, hs, hsc⟩
 
-theorem modelled_ne_axis {t : CType} (h : modelled t = true) : t.isArray = true ∧ t ≠ .axis ∧ t ≠ .ref ∧ t ≠ .cm := by
-  cases t <;> simp [modelled, CType.isArray] at h ⊢
+theorem modelled_ne_axis {t : CType} (h : t.isArray = true) : t.isArray = true ∧ t ≠ .axis ∧ t ≠ .ref ∧ t ≠ .cm := by
+  cases t <;> simp [CType.isArray] at h ⊢
 
 /-- the state at the start of the loop over the constructs, `s1`, fixes the sizes, keys and recorded axes -/
 structure SubInv2 (A : List Key) (new s1 st : St) : Prop where
